@@ -23,8 +23,25 @@ pub struct C19;
 enum Expected {
     /// exit 0 with this pretty text / this JSON
     Ok { pretty: String, json: J },
-    /// exit non-zero
-    Fail(&'static str),
+    /// exit non-zero; the `path:row:column:` citations of the library's own pretty rendering of
+    /// the error (empty when the failure is not a library error)
+    Fail(&'static str, Vec<String>),
+}
+
+/// the `path:row:column:` tokens of a pretty-rendered diagnostic that cite one of the two files
+fn citations(rendered: &str, paths: &[&str]) -> Vec<String> {
+    let mut v = Vec::new();
+    for p in paths {
+        if let Ok(re) = regex::Regex::new(&format!(r"{}:\d+:\d+:", regex::escape(p))) {
+            for m in re.find_iter(rendered) {
+                let t = m.as_str().to_string();
+                if !v.contains(&t) {
+                    v.push(t);
+                }
+            }
+        }
+    }
+    v
 }
 
 /// drop address-derived syntax-node ids, sort set elements canonically
@@ -52,22 +69,30 @@ fn normalise(j: &J) -> J {
     }
 }
 
-fn expected(text: &str, source: &str, globals: &[(String, String)], lazy: bool, allow_parse_errors: bool) -> Expected {
+fn expected(text: &str, source: &str, globals: &[(String, String)], lazy: bool, allow_parse_errors: bool, tsg_path: &str, src_path: &str) -> Expected {
     // globals given twice are rejected by the variable set
     let mut vars = Variables::new();
     for (k, v) in globals {
         if vars.add(Identifier::from(k.as_str()), v.clone().into()).is_err() {
-            return Expected::Fail("duplicate --global");
+            return Expected::Fail("duplicate --global", vec![]);
         }
     }
     let file = match catch(|| File::from_str(python(), text)) {
         Ok(Ok(f)) => f,
-        Ok(Err(_)) => return Expected::Fail("DSL file rejected"),
-        Err(_) => return Expected::Fail("library panicked while loading"),
+        Ok(Err(e)) => {
+            let shown = catch(|| e.display_pretty(std::path::Path::new(tsg_path), text).to_string()).unwrap_or_default();
+            return Expected::Fail("DSL file rejected", citations(&shown, &[tsg_path]));
+        }
+        Err(_) => return Expected::Fail("library panicked while loading", vec![]),
     };
     let tree = parse_python(source);
-    if !allow_parse_errors && !ParseError::all(&tree).is_empty() {
-        return Expected::Fail("source has syntax errors");
+    if !allow_parse_errors {
+        let errs = ParseError::all(&tree);
+        if !errs.is_empty() {
+            // the first of them at least is shown, however many the tool chooses to list
+            let shown = catch(|| errs[0].display_pretty(std::path::Path::new(src_path), source).to_string()).unwrap_or_default();
+            return Expected::Fail("source has syntax errors", citations(&shown, &[src_path]));
+        }
     }
     let functions = Functions::stdlib();
     let r = catch(|| {
@@ -76,8 +101,11 @@ fn expected(text: &str, source: &str, globals: &[(String, String)], lazy: bool, 
     });
     match r {
         Ok(Ok((pretty, json))) => Expected::Ok { pretty, json },
-        Ok(Err(_)) => Expected::Fail("execution failed"),
-        Err(_) => Expected::Fail("library panicked while executing"),
+        Ok(Err(e)) => {
+            let shown = catch(|| e.display_pretty(std::path::Path::new(src_path), source, std::path::Path::new(tsg_path), text).to_string()).unwrap_or_default();
+            Expected::Fail("execution failed", citations(&shown, &[tsg_path, src_path]))
+        }
+        Err(_) => Expected::Fail("library panicked while executing", vec![]),
     }
 }
 
@@ -120,6 +148,14 @@ impl Prop for C19 {
             // a file without any stanza: still subject to every gate
             text = (*rng.pick(&["", "; only a comment\n", "global zq_unused_global = \"d\"\n", "attribute zq_sh = v => a = v\n", "inherit .scope\n"])).to_string();
             out.feat("dsl_without_stanzas");
+        }
+        // layout at the very beginning and end of the file: blank lines, an indented first line,
+        // no final line feed (positions in diagnostics count from the file's first byte)
+        match rng.below(6) {
+            0 => text = format!("\n\n{}", text),
+            1 => text = format!("   {}", text),
+            2 => text = format!("\n \n\t{}", text.trim_end()),
+            _ => {}
         }
         let source = py::gen_any_source(rng, 8, 30);
         if text.contains("print ") {
@@ -212,11 +248,11 @@ impl Prop for C19 {
             args.extend(t);
         }
         let want = if with_output && !as_json {
-            Expected::Fail("--output without --json")
+            Expected::Fail("--output without --json", vec![])
         } else if malformed_global {
-            Expected::Fail("--global without =")
+            Expected::Fail("--global without =", vec![])
         } else {
-            expected(&text, &source, &globals, lazy, allow)
+            expected(&text, &source, &globals, lazy, allow, &tsg_path, &src_path)
         };
         let run = Command::new(&cli)
             .args(&args)
@@ -238,7 +274,7 @@ impl Prop for C19 {
         let stderr = String::from_utf8_lossy(&o.stderr).to_string();
         let code = o.status.code();
         let file_content = std::fs::read_to_string(&out_path).ok();
-        let cj = || json!({"dsl": text, "source": source, "args": args[2..].to_vec(), "exit": code, "stdout": crate::util::trunc(&stdout, 1500), "stderr": crate::util::trunc(&stderr, 800), "output_file": file_content.as_ref().map(|s| crate::util::trunc(s, 500)), "expected": match &want { Expected::Ok { .. } => "success".to_string(), Expected::Fail(w) => format!("failure: {}", w) }});
+        let cj = || json!({"dsl": text, "source": source, "args": args[2..].to_vec(), "exit": code, "stdout": crate::util::trunc(&stdout, 1500), "stderr": crate::util::trunc(&stderr, 800), "output_file": file_content.as_ref().map(|s| crate::util::trunc(s, 500)), "expected": match &want { Expected::Ok { .. } => "success".to_string(), Expected::Fail(w, _) => format!("failure: {}", w) }});
         if code.is_none() {
             out.violation("C19:cli-killed-by-signal", &format!("the CLI died: {:?}", o.status), cj());
             return;
@@ -248,7 +284,7 @@ impl Prop for C19 {
             return;
         }
         match &want {
-            Expected::Fail(why) => {
+            Expected::Fail(why, cites) => {
                 if code == Some(0) {
                     out.violation(&format!("C19:exit-0-on-failure:{}", why.replace(' ', "-")), &format!("the CLI exited 0 although {}", why), cj());
                     return;
@@ -266,6 +302,20 @@ impl Prop for C19 {
                 if stderr.trim().is_empty() {
                     out.violation("C19:no-diagnostic", &format!("non-zero exit ({}) without any diagnostic on stderr", why), cj());
                     return;
+                }
+                // the diagnostic is the library's: every file position the library's own pretty
+                // rendering of this error cites is cited on stderr
+                if !cites.is_empty() {
+                    if let Some(missing) = cites.iter().find(|c| !stderr.contains(c.as_str())) {
+                        let mut c = cj();
+                        c["library_cites"] = json!(cites);
+                        out.violation(&format!("C19:diagnostic-cites-another-position:{}", why.replace(' ', "-")), &format!("failing run ({}): the library's rendering of the error cites {} but the CLI's diagnostic does not", why, missing.rsplitn(4, ':').take(3).collect::<Vec<_>>().into_iter().rev().collect::<Vec<_>>().join(":")), c);
+                        return;
+                    }
+                    out.feat(&format!("diagnostic_positions_compared:{}", why.replace(' ', "_")));
+                    if text.starts_with(char::is_whitespace) {
+                        out.feat("diagnostic_positions_compared:dsl_starts_with_blank_lines");
+                    }
                 }
                 // `--quiet` changes nothing else: the same failing run without it has the same
                 // exit status and the same diagnostic
